@@ -692,7 +692,26 @@ func errIffEmpty(fn *ssa.Function, d ssa.Value, empty *ssa.Global) (bool, string
 				return false, "known-name path returns a non-nil error"
 			}
 		default:
-			return false, "a return is not under either edge of the test"
+			// one return for both outcomes: the error is a merge whose incoming values are decided by the test
+			phi, isPhi := ev.(*ssa.Phi)
+			if !isPhi {
+				return false, "a return is not under either edge of the test"
+			}
+			for k, e := range phi.Edges {
+				pred := phi.Block().Preds[k]
+				switch {
+				case edgeControls(tb, eq, pred) || (pred == tb && phi.Block() == eq):
+					if !definitelyNonNilErr(e) {
+						return false, "unknown-name path returns a possibly-nil error"
+					}
+				case edgeControls(tb, ne, pred) || (pred == tb && phi.Block() == ne):
+					if !isNil(e) {
+						return false, "known-name path returns a non-nil error"
+					}
+				default:
+					return false, "a return is not under either edge of the test"
+				}
+			}
 		}
 	}
 	return true, ""
